@@ -215,11 +215,88 @@ pub fn par_fold<A: Send>(
     (total, done.load(Ordering::Relaxed))
 }
 
+/// `par_fold` over `n` indices, split over child PROCESSES of at most `chunk` indices each
+/// when `n > chunk` (one child at a time, each using all workers). Needed where an execution
+/// cannot give its memory back: shuttle deliberately leaks the coroutines of tasks that are
+/// still in flight when an execution ends by a panic, and every thread-flavour execution
+/// ends that way (simulated process exit), ~250 KB each.
+/// Returns Ok(None) in a child (accumulator written to --chunk-out; caller exits 0).
+pub fn par_fold_chunked<A>(
+    cli: &Cli,
+    n: u64,
+    chunk: u64,
+    init: impl Fn() -> A + Sync,
+    step: impl Fn(&mut A, u64) + Sync,
+    mut merge: impl FnMut(&mut A, A),
+) -> Result<Option<A>, String>
+where
+    A: Send + serde::Serialize + serde::de::DeserializeOwned,
+{
+    if let (Some(a), Some(b), Some(out)) = (cli.opts.get("chunk-from"), cli.opts.get("chunk-to"), cli.opts.get("chunk-out")) {
+        let a: u64 = a.parse().map_err(|_| "bad --chunk-from".to_string())?;
+        let b: u64 = b.parse().map_err(|_| "bad --chunk-to".to_string())?;
+        let (acc, _) = par_fold(b.saturating_sub(a), cli.workers, None, &init, |acc, k| step(acc, a + k), &mut merge);
+        let bytes = serde_json::to_vec(&acc).map_err(|e| format!("chunk accumulator: {}", e))?;
+        std::fs::write(out, bytes).map_err(|e| format!("{}: {}", out, e))?;
+        return Ok(None);
+    }
+    if n <= chunk {
+        let (acc, _) = par_fold(n, cli.workers, None, &init, &step, &mut merge);
+        return Ok(Some(acc));
+    }
+    let dir = verif_root().join("target").join("chunks");
+    std::fs::create_dir_all(&dir).map_err(|e| format!("{}: {}", dir.display(), e))?;
+    let mut total = init();
+    let mut a = 0u64;
+    while a < n {
+        let b = (a + chunk).min(n);
+        let out = dir.join(format!("{}-{}-{}.json", cli.target, std::process::id(), a));
+        let mut cmd = std::process::Command::new(&cli.exe);
+        cmd.args(std::env::args().skip(1));
+        cmd.arg("--chunk-from").arg(a.to_string()).arg("--chunk-to").arg(b.to_string()).arg("--chunk-out").arg(&out);
+        let st = cmd.status().map_err(|e| format!("cannot start chunk process: {}", e))?;
+        if !st.success() {
+            let _ = std::fs::remove_file(&out);
+            return Err(format!("chunk process for runs {}..{} ended with {:?}", a, b, st));
+        }
+        let bytes = std::fs::read(&out).map_err(|e| format!("{}: {}", out.display(), e))?;
+        let _ = std::fs::remove_file(&out);
+        let part: A = serde_json::from_slice(&bytes).map_err(|e| format!("chunk accumulator {}: {}", out.display(), e))?;
+        merge(&mut total, part);
+        a = b;
+    }
+    Ok(Some(total))
+}
+
+impl<'de> serde::Deserialize<'de> for Violation {
+    fn deserialize<D: serde::Deserializer<'de>>(d: D) -> Result<Violation, D::Error> {
+        #[derive(serde::Deserialize)]
+        struct V {
+            property: String,
+            class: String,
+            sig: String,
+            message: String,
+            run_index: u64,
+            replay: Value,
+        }
+        let v = V::deserialize(d)?;
+        let property: &'static str = match v.property.as_str() {
+            "C06" => "C06",
+            "C10" => "C10",
+            "C14" => "C14",
+            "C19" => "C19",
+            "C20" => "C20",
+            _ => Box::leak(v.property.into_boxed_str()),
+        };
+        Ok(Violation { property, class: v.class, sig: v.sig, message: v.message, run_index: v.run_index, replay: v.replay })
+    }
+}
+
 // ---------------------------------------------------------------------------------------
 // Violations, replay files, known findings
 // ---------------------------------------------------------------------------------------
 
-#[derive(Clone, Debug)]
+#[derive(Clone, Debug, serde::Serialize)]
 pub struct Violation {
     pub property: &'static str,
     /// violation class, e.g. "diverging_diagnostics"
@@ -616,6 +693,46 @@ fn describe_exit(st: &std::process::ExitStatus) -> String {
     }
 }
 
+
+/// Is every thread of process `pid` blocked (state S or D ... here: sleeping) and has the process
+/// used no CPU since the previous sample? Returns (all_blocked, cpu_ticks).
+fn proc_blocked(pid: u32) -> Option<(bool, u64)> {
+    let mut all_blocked = true;
+    let mut ticks = 0u64;
+    let dir = std::fs::read_dir(format!("/proc/{}/task", pid)).ok()?;
+    let mut n = 0;
+    for e in dir.flatten() {
+        let stat = std::fs::read_to_string(e.path().join("stat")).ok()?;
+        // fields after the closing paren of comm
+        let rest = stat.rsplit_once(')')?.1;
+        let f: Vec<&str> = rest.split_whitespace().collect();
+        // f[0] = state, f[11] = utime, f[12] = stime
+        if f.len() < 13 {
+            return None;
+        }
+        if f[0] != "S" {
+            all_blocked = false;
+        }
+        // blocked on a lock / condition / join (futex), not on I/O that somebody may still serve
+        let wchan = std::fs::read_to_string(e.path().join("wchan")).unwrap_or_default();
+        if !wchan.contains("futex") {
+            all_blocked = false;
+        }
+        ticks += f[11].parse::<u64>().unwrap_or(0) + f[12].parse::<u64>().unwrap_or(0);
+        n += 1;
+    }
+    if n == 0 {
+        return None;
+    }
+    Some((all_blocked, ticks))
+}
+
+/// A worker whose threads are ALL blocked and which burns no CPU over `DEADLOCK_SAMPLES`
+/// consecutive samples can never make progress again (nothing outside the process will wake
+/// it: stdin is /dev/null, the parent only reads): that is a deadlock of the code under test,
+/// a stable fact about the process state, not a wall-clock judgement about slowness.
+const DEADLOCK_SAMPLES: u32 = 15; // x 200 ms
+
 /// Parent side: run indices 0..n in worker processes
 /// (`exe <target> --mode worker --from a --to b` + the forwarded options).
 pub fn supervise(cli: &Cli, n: u64, forward: &[(&str, String)], per_run_timeout_s: u64) -> Supervised {
@@ -674,20 +791,35 @@ pub fn supervise(cli: &Cli, n: u64, forward: &[(&str, String)], per_run_timeout_
                         let (l2, f2) = (last.clone(), finished.clone());
                         let t0 = Instant::now();
                         let wd = std::thread::spawn(move || {
+                            let mut blocked_samples = 0u32;
+                            let mut last_ticks = u64::MAX;
                             while !f2.load(Ordering::Relaxed) {
                                 std::thread::sleep(std::time::Duration::from_millis(200));
                                 let idle = t0.elapsed().as_secs().saturating_sub(l2.load(Ordering::Relaxed));
-                                if idle > per_run_timeout_s {
-                                    unsafe {
-                                        extern "C" {
-                                            fn kill(pid: i32, sig: i32) -> i32;
-                                        }
-                                        kill(pid as i32, 9);
+                                let kill_it = || unsafe {
+                                    extern "C" {
+                                        fn kill(pid: i32, sig: i32) -> i32;
                                     }
-                                    return true;
+                                    kill(pid as i32, 9);
+                                };
+                                match proc_blocked(pid) {
+                                    Some((true, ticks)) if ticks == last_ticks => blocked_samples += 1,
+                                    Some((_, ticks)) => {
+                                        blocked_samples = 0;
+                                        last_ticks = ticks;
+                                    }
+                                    None => blocked_samples = 0,
+                                }
+                                if blocked_samples >= DEADLOCK_SAMPLES {
+                                    kill_it();
+                                    return 2u8;
+                                }
+                                if idle > per_run_timeout_s {
+                                    kill_it();
+                                    return 1u8;
                                 }
                             }
-                            false
+                            0u8
                         });
                         let mut done = false;
                         let mut next_k = from;
@@ -729,9 +861,14 @@ pub fn supervise(cli: &Cli, n: u64, forward: &[(&str, String)], per_run_timeout_
                         }
                         let status = child.wait();
                         finished.store(true, Ordering::Relaxed);
-                        let timed_out = wd.join().unwrap_or(false);
+                        let wd_verdict = wd.join().unwrap_or(0);
+                        let timed_out = wd_verdict == 1;
                         if done {
                             from = b;
+                        } else if wd_verdict == 2 {
+                            bad_events.fetch_add(1, Ordering::Relaxed);
+                            local.deaths.push((next_k, "deadlock(all threads blocked, no CPU used)".to_string()));
+                            from = next_k + 1;
                         } else if timed_out {
                             bad_events.fetch_add(1, Ordering::Relaxed);
                             local.harness_errors.push(format!(
@@ -800,10 +937,30 @@ pub fn run_isolated(cli: &Cli, case: &Value, timeout_s: u64) -> Result<Option<Va
             out
         })
     });
+    let mut blocked_samples = 0u32;
+    let mut last_ticks = u64::MAX;
+    let mut polls = 0u32;
     let status = loop {
         match child.try_wait() {
             Ok(Some(s)) => break s,
             Ok(None) => {
+                polls += 1;
+                if polls % 100 == 0 {
+                    match proc_blocked(child.id()) {
+                        Some((true, ticks)) if ticks == last_ticks => blocked_samples += 1,
+                        Some((_, ticks)) => {
+                            blocked_samples = 0;
+                            last_ticks = ticks;
+                        }
+                        None => blocked_samples = 0,
+                    }
+                    if blocked_samples >= DEADLOCK_SAMPLES {
+                        let _ = child.kill();
+                        let _ = child.wait();
+                        let _ = std::fs::remove_file(&path);
+                        return Err("deadlock(all threads blocked, no CPU used)".into());
+                    }
+                }
                 if t0.elapsed().as_secs() > timeout_s {
                     let _ = child.kill();
                     let _ = child.wait();
